@@ -904,15 +904,13 @@ def mc_tasks(ctx):
     if q:
         T.append(("Kernel spec, <=2 requests, full universe, one client", "Kernel", kernel_cfg("spec", 2, TAGS_ALL, False, both, KERNEL_INV), "holds", 6))
         T.append(("Kernel spec, <=2 requests, core universe, two clients", "Kernel", kernel_cfg("spec", 2, TAGS_CORE, True, ["TRUE"], KERNEL_INV), "holds", 3))
-        T.append(("Kernel spec, <=3 requests, error+print / kernel_info / forged", "Kernel",
-                  kernel_cfg("spec", 3, ["perr", "kernel_info_request", "forged-sig"], False, ["TRUE"], KERNEL_INV), "holds", 6))
+        T.append(("Kernel spec, <=3 requests, error+print / forged", "Kernel",
+                  kernel_cfg("spec", 3, ["perr", "forged-sig"], False, ["TRUE"], KERNEL_INV), "holds", 6))
         n = 2
     else:
         T.append(("Kernel spec, <=3 requests, full universe, one client", "Kernel", kernel_cfg("spec", 3, TAGS_ALL, False, both, KERNEL_INV), "holds", 12))
         T.append(("Kernel spec, <=3 requests, ok / error+print / forged, two clients", "Kernel",
                   kernel_cfg("spec", 3, ["ok", "perr", "forged-sig"], True, ["TRUE"], KERNEL_INV), "holds", 6))
-        T.append(("Kernel spec, <=4 requests, error+print / kernel_info / forged", "Kernel",
-                  kernel_cfg("spec", 4, ["perr", "kernel_info_request", "forged-sig"], False, ["TRUE"], KERNEL_INV), "holds", 8))
         T.append(("Kernel spec, <=4 requests, 8 request kinds, clients wait for quiescence", "Kernel",
                   kernel_cfg("spec", 4, TAGS_SEQ, False, ["TRUE"], KERNEL_INV, pipelining=False), "holds", 8))
         n = 3
@@ -925,8 +923,10 @@ def mc_tasks(ctx):
               kernel_cfg("code", 2, [t for t in TAGS_ALL if t != "perr"], False, ["TRUE"], ["StdoutAttributed"]), "holds", 2))
     T.append(("Kernel fixed mechanism (proposed fix)", "Kernel", kernel_cfg("fixed", n, tags_n, False, both, KERNEL_INV + ["StdoutBeforeIdle"]), "holds", 4))
     T.append(("Kernel witnesses", "Kernel",
-              kernel_cfg("spec", 2, ["ok", "perr", "forged-sig", "kernel_info_request"], True, both, []).replace(
+              kernel_cfg("spec", 2, ["perr", "forged-sig", "kernel_info_request"], True, both, []).replace(
                   "CHECK_DEADLOCK", "CONSTRAINT TrackW\nPOSTCONDITION WitnessesSeen\nCHECK_DEADLOCK"), "witnesses", 1))
+    big = ("<=3 requests", "<=4 requests", "all chunkings, <=3", "full universe", "witnesses", "byte-fed, <=3")
+    T.sort(key=lambda t: 0 if any(b in t[0] for b in big) else 1)          # long runs first (stable)
     return T
 
 
@@ -956,7 +956,7 @@ def run_mc(ctx, tasks, results, par=5):
     return ths
 
 
-def judge_mc(ctx, tasks, results):
+def judge_mc(ctx, tasks, results, defect_seen_on_code=True):
     nw = 0
     for label, spec, cfgtext, exp, _w in tasks:
         res = results.get(label)
@@ -976,7 +976,9 @@ def judge_mc(ctx, tasks, results):
             inv = exp.split(":")[1]
             if res.ok or res.violated != inv:
                 raise MachineryFailure("%s: expected %s to be violated, got %s" % (label, inv, res.violated))
-            if inv == "StdoutAttributed":
+            if inv == "StdoutAttributed" and defect_seen_on_code:
+                # the model of the pinned tree's mechanism exhibits the known finding; it is reported (as a hit of
+                # the known finding) only while the code itself still shows it, so that a repaired tree is noticed
                 ctx.report({"clause": "stdout-parent", "path": "execute-error", "level": "model"},
                            "model of the code's stdout mechanism violates StdoutAttributed", {"kind": "model", "spec": spec, "cfg": cfgtext, "cex": res.cex})
             else:
@@ -1158,13 +1160,21 @@ def selftest(ctx, frame_recs, session_cases):
                                          "stream-parent", "reply-ids", "reply-unsigned", "busy-after-reply")} - set(per)
     if missing:
         raise MachineryFailure("selftest: no accepted recording to apply %s to" % sorted(missing))
+    fb = corrupt_frames(frame_recs[:40])
+    deferred, box = [], {}
+    th = threading.Thread(target=lambda: box.update(f=validate_frames(ctx, [dict(x, fam="", chunks=[], nchunks=0) for x in fb], "corrupt", nproc=2, defer=deferred)))
+    th.start()
     rej = {r["id"] for r in validate_sessions(ctx, sb, "corrupt", nproc=4)}
+    th.join()
+    if "f" not in box:
+        raise MachineryFailure("selftest: framing acceptor failed on the corrupted cases")
+    for res in deferred:
+        ctx.add_tlc(res, None)
     missed = [c["id"] for c in sb if c["id"] not in rej]
     if missed:
         raise MachineryFailure("selftest: corrupted session recordings accepted: %s" % missed[:5])
     n += len(sb)
-    fb = corrupt_frames(frame_recs[:40])
-    rej = {r["id"] for r in validate_frames(ctx, [dict(x, fam="", chunks=[], nchunks=0) for x in fb], "corrupt", nproc=2)}
+    rej = {r["id"] for r in box["f"]}
     missed = [c["id"] for c in fb if c["id"] not in rej]
     if missed:
         raise MachineryFailure("selftest: corrupted framing cases accepted: %s" % missed[:5])
@@ -1251,7 +1261,7 @@ def main(ctx):
     for t in ths:
         t.join()
     mark("model checking joined")
-    judge_mc(ctx, tasks, mcres)
+    judge_mc(ctx, tasks, mcres, defect_seen_on_code=any(rj["why"].startswith("stdout-parent/") for rj in srej) or bool(only))
     if only:
         for v in ctx.violations:
             print("   (partial run) rejection:", v["sig"], v["what"])
